@@ -1071,6 +1071,20 @@ func (c *TermCtx) Eq(a, b *Term) *Term {
 			}
 		}
 	}
+	// (x + k1) == (x + k2)  <=>  k1 == k2
+	{
+		ba, ka := splitAddConst(a)
+		bb, kb := splitAddConst(b)
+		if ba == bb && (ka != nil || kb != nil) {
+			if ka == nil {
+				ka = c.Const(a.W, 0)
+			}
+			if kb == nil {
+				kb = c.Const(a.W, 0)
+			}
+			return c.Bool(constEq(ka, kb))
+		}
+	}
 	// concat(p1..pn) == b: compare part-wise (lets per-byte facts decide)
 	if a.Op == OpConcat || b.Op == OpConcat {
 		if a.Op != OpConcat {
@@ -1119,6 +1133,13 @@ func (c *TermCtx) Eq(a, b *Term) *Term {
 		a, b = b, a
 	}
 	return c.node(OpEq, 0, 0, 0, "", a, b)
+}
+
+func splitAddConst(t *Term) (*Term, *Term) {
+	if t.Op == OpAdd && t.A[1].IsConst() {
+		return t.A[0], t.A[1]
+	}
+	return t, nil
 }
 
 func isInjectiveUF(name string) bool {
